@@ -1,6 +1,299 @@
 // Kill points, traces and forced schedules over the `verif` hooks of pocket-db (C13, C14).
-use crate::St;
+//
+// TRC <request…>            run one store request with tracing on; reply `<reply> | p1,p2,…`
+// KIL <point> <n> <request…> arm: `_exit(77)` at the n-th hit of <point>, then run the request
+// CON <point> <n> A=<request…> || B=<request…>
+//                            thread A runs its request and pauses at the n-th hit of <point>;
+//                            thread B then runs its request (150 ms to finish, else "blocked");
+//                            A is released; both replies and B's status are returned
+// STRESS <threads> <iters> <seed>   randomised multi-thread stress (support only)
+// MLN                        length of the event.map file (to recognise growth steps, C15)
+use crate::{store_req, St};
+use pocket_db::verif;
+use std::sync::atomic::{AtomicUsize, Ordering};
+use std::sync::{Arc, Condvar, Mutex};
+use std::time::Duration;
 
-pub fn handle(_st: &mut St, cmd: &str, _a: &[&str]) -> Result<String, String> {
-    Err(format!("unsupported {}", cmd))
+struct Ctl {
+    trace: Mutex<Option<Vec<&'static str>>>,
+    kill: Mutex<Option<(String, usize)>>,
+    pause: Mutex<Option<(String, usize, std::thread::ThreadId)>>,
+    paused: Mutex<bool>,
+    paused_cv: Condvar,
+    release: Mutex<bool>,
+    release_cv: Condvar,
+    hits: AtomicUsize,
+}
+
+fn ctl() -> &'static Ctl {
+    static C: std::sync::OnceLock<Ctl> = std::sync::OnceLock::new();
+    C.get_or_init(|| {
+        let c = Ctl {
+            trace: Mutex::new(None),
+            kill: Mutex::new(None),
+            pause: Mutex::new(None),
+            paused: Mutex::new(false),
+            paused_cv: Condvar::new(),
+            release: Mutex::new(false),
+            release_cv: Condvar::new(),
+            hits: AtomicUsize::new(0),
+        };
+        verif::set_hook(Some(Box::new(hook)));
+        c
+    })
+}
+
+fn hook(name: &'static str) {
+    let c = ctl();
+    if let Some(t) = c.trace.lock().unwrap().as_mut() {
+        t.push(name);
+    }
+    let kill_now = {
+        let mut k = c.kill.lock().unwrap();
+        match k.as_mut() {
+            Some((p, n)) if p == name => {
+                if *n <= 1 {
+                    true
+                } else {
+                    *n -= 1;
+                    false
+                }
+            }
+            _ => false,
+        }
+    };
+    if kill_now {
+        // the process dies here: no destructors, no flushes (page cache survives, like kill -9)
+        unsafe { libc::_exit(77) };
+    }
+    let pause_now = {
+        let mut p = c.pause.lock().unwrap();
+        match p.as_mut() {
+            Some((pt, n, tid)) if pt == name && *tid == std::thread::current().id() => {
+                if *n <= 1 {
+                    *p = None;
+                    true
+                } else {
+                    *n -= 1;
+                    false
+                }
+            }
+            _ => false,
+        }
+    };
+    if pause_now {
+        {
+            let mut g = c.paused.lock().unwrap();
+            *g = true;
+            c.paused_cv.notify_all();
+        }
+        let mut r = c.release.lock().unwrap();
+        while !*r {
+            r = c.release_cv.wait(r).unwrap();
+        }
+    }
+    let _ = c.hits.fetch_add(1, Ordering::Relaxed);
+}
+
+fn run_req(st: &St, line: &[&str]) -> Result<String, String> {
+    let store = st.store.as_ref().ok_or("nostore")?;
+    store_req(store, line[0], &line[1..])
+}
+
+pub fn handle(st: &mut St, cmd: &str, a: &[&str]) -> Result<String, String> {
+    let c = ctl();
+    match cmd {
+        "TRC" => {
+            *c.trace.lock().unwrap() = Some(vec![]);
+            let r = if a[0] == "NEW" || a[0] == "OPN" {
+                // creation / open: traced through the top-level handler
+                crate::handle_pub(st, &a.join(" "))
+            } else {
+                run_req(st, a)
+            };
+            let t = c.trace.lock().unwrap().take().unwrap_or_default();
+            Ok(format!("{} | {}", r?, if t.is_empty() { "-".to_string() } else { t.join(",") }))
+        }
+        "KIL" => {
+            let point = a[0].to_string();
+            let n: usize = a[1].parse().map_err(|_| "n".to_string())?;
+            *c.kill.lock().unwrap() = Some((point, n));
+            let r = if a[2] == "NEW" || a[2] == "OPN" {
+                crate::handle_pub(st, &a[2..].join(" "))
+            } else {
+                run_req(st, &a[2..])
+            };
+            *c.kill.lock().unwrap() = None;
+            Ok(format!("survived {}", r?))
+        }
+        "MLN" => {
+            let d = st.dir.clone().ok_or("nodir")?;
+            let m = std::fs::metadata(d.join("event.map")).map_err(|e| e.to_string())?;
+            Ok(format!("{}", m.len()))
+        }
+        "CON" => {
+            // CON <point> <n> A <request…> B <request…>
+            let point = a[0].to_string();
+            let n: usize = a[1].parse().map_err(|_| "n".to_string())?;
+            let bpos = a.iter().position(|x| *x == "B").ok_or("noB")?;
+            if a[2] != "A" {
+                return Err("noA".into());
+            }
+            let ra: Vec<String> = a[3..bpos].iter().map(|s| s.to_string()).collect();
+            let rb: Vec<String> = a[bpos + 1..].iter().map(|s| s.to_string()).collect();
+            let store = st.store.take().ok_or("nostore")?;
+            let store = Arc::new(store);
+            *c.paused.lock().unwrap() = false;
+            *c.release.lock().unwrap() = false;
+            let sa = store.clone();
+            let (txa, rxa) = std::sync::mpsc::channel();
+            let pa = point.clone();
+            let ha = std::thread::spawn(move || {
+                *ctl().pause.lock().unwrap() = Some((pa, n, std::thread::current().id()));
+                let v: Vec<&str> = ra.iter().map(|s| s.as_str()).collect();
+                let r = std::panic::catch_unwind(std::panic::AssertUnwindSafe(|| store_req(&sa, v[0], &v[1..])));
+                *ctl().pause.lock().unwrap() = None;
+                let _ = txa.send(match r {
+                    Ok(Ok(s)) => s,
+                    Ok(Err(e)) => format!("bad-request {}", e),
+                    Err(_) => "panic".to_string(),
+                });
+            });
+            // wait until A is paused (or has finished without reaching the point)
+            let mut a_done: Option<String> = None;
+            let mut reached = false;
+            for _ in 0..400 {
+                {
+                    let g = c.paused.lock().unwrap();
+                    if *g {
+                        reached = true;
+                        break;
+                    }
+                }
+                if let Ok(r) = rxa.try_recv() {
+                    a_done = Some(r);
+                    break;
+                }
+                std::thread::sleep(Duration::from_millis(1));
+            }
+            // run B
+            let sb = store.clone();
+            let (txb, rxb) = std::sync::mpsc::channel();
+            let hb = std::thread::spawn(move || {
+                let v: Vec<&str> = rb.iter().map(|s| s.as_str()).collect();
+                let r = std::panic::catch_unwind(std::panic::AssertUnwindSafe(|| store_req(&sb, v[0], &v[1..])));
+                let _ = txb.send(match r {
+                    Ok(Ok(s)) => s,
+                    Ok(Err(e)) => format!("bad-request {}", e),
+                    Err(_) => "panic".to_string(),
+                });
+            });
+            let (b_reply, b_blocked) = match rxb.recv_timeout(Duration::from_millis(150)) {
+                Ok(r) => (Some(r), false),
+                Err(_) => (None, true),
+            };
+            // release A
+            {
+                let mut r = c.release.lock().unwrap();
+                *r = true;
+                c.release_cv.notify_all();
+            }
+            let a_reply = match a_done {
+                Some(r) => r,
+                None => rxa.recv_timeout(Duration::from_secs(10)).unwrap_or_else(|_| "HUNG".to_string()),
+            };
+            let b_reply = match b_reply {
+                Some(r) => r,
+                None => rxb.recv_timeout(Duration::from_secs(10)).unwrap_or_else(|_| "HUNG".to_string()),
+            };
+            let _ = ha.join();
+            let _ = hb.join();
+            *c.release.lock().unwrap() = false;
+            *c.paused.lock().unwrap() = false;
+            match Arc::try_unwrap(store) {
+                Ok(s) => st.store = Some(s),
+                Err(_) => return Err("store still shared".into()),
+            }
+            Ok(format!(
+                "A=[{}] B=[{}] reached={} b_blocked={}",
+                crate::strip_now(&a_reply),
+                crate::strip_now(&b_reply),
+                reached as u8,
+                b_blocked as u8
+            ))
+        }
+        "STRESS" => {
+            // STRESS <threads> <iters> <seed>: writers submit events from a small universe (same
+            // ids, same replaceable addresses); readers loop on lookups.  Reports per-id success
+            // counts and the final retrievable holders per address.
+            let threads: usize = a[0].parse().map_err(|_| "threads".to_string())?;
+            let iters: usize = a[1].parse().map_err(|_| "iters".to_string())?;
+            let seed: u64 = a[2].parse().map_err(|_| "seed".to_string())?;
+            let store = Arc::new(st.store.take().ok_or("nostore")?);
+            let oks: Arc<Vec<AtomicUsize>> = Arc::new((0..64).map(|_| AtomicUsize::new(0)).collect());
+            let bad = Arc::new(AtomicUsize::new(0));
+            let mut hs = vec![];
+            for t in 0..threads {
+                let s = store.clone();
+                let oks = oks.clone();
+                let bad = bad.clone();
+                hs.push(std::thread::spawn(move || {
+                    let mut x = seed.wrapping_add(t as u64 * 7919) | 1;
+                    let mut rnd = || {
+                        x ^= x << 13;
+                        x ^= x >> 7;
+                        x ^= x << 17;
+                        x
+                    };
+                    for _ in 0..iters {
+                        let k = (rnd() % 64) as usize;
+                        let idh = crate::hex(&[(k + 1) as u8; 32]);
+                        if t % 4 == 3 {
+                            // reader: the event, if visible, must be whole
+                            match store_req(&s, "GID", &[&idh]) {
+                                Ok(r) => {
+                                    if r.starts_with("some") {
+                                        let b = crate::unhex(&r[5..]).unwrap_or_default();
+                                        if b.len() < 152 || b[16..48] != [(k + 1) as u8; 32] {
+                                            let _ = bad.fetch_add(1, Ordering::Relaxed);
+                                        }
+                                    } else if r != "none" {
+                                        let _ = bad.fetch_add(1, Ordering::Relaxed);
+                                    }
+                                }
+                                Err(_) => {
+                                    let _ = bad.fetch_add(1, Ordering::Relaxed);
+                                }
+                            }
+                            continue;
+                        }
+                        // writers: id k is always the same event; kinds 0/1/10000/30000 by k
+                        let kind = [1u32, 0, 10000, 30000][k % 4];
+                        let pk = crate::hex(&[0xa0 + (k % 2) as u8; 32]);
+                        let ts = 100 + (k / 4) as u64;
+                        let tags = if kind == 30000 { "64,78" } else { "_" };
+                        let content = crate::hex(&vec![k as u8; 40 + 37 * (k % 7)]);
+                        let r = store_req(&s, "STO", &[&idh, &pk, &kind.to_string(), &ts.to_string(), tags, &content]);
+                        match r {
+                            Ok(r) if r.starts_with("ok") => {
+                                let _ = oks[k].fetch_add(1, Ordering::Relaxed);
+                            }
+                            Ok(r) if r == "dup" || r == "replaced" || r == "deleted" => {}
+                            _ => {
+                                let _ = bad.fetch_add(1, Ordering::Relaxed);
+                            }
+                        }
+                    }
+                }));
+            }
+            for h in hs {
+                let _ = h.join();
+            }
+            let store = Arc::try_unwrap(store).map_err(|_| "store still shared".to_string())?;
+            let counts: Vec<String> = oks.iter().map(|c| c.load(Ordering::Relaxed).to_string()).collect();
+            st.store = Some(store);
+            Ok(format!("ok bad={} oks={}", bad.load(Ordering::Relaxed), counts.join(",")))
+        }
+        _ => Err(format!("unsupported {}", cmd)),
+    }
 }
